@@ -238,7 +238,27 @@ def check_proc_full(exo_proc, driver=None):
     if len(target) != 1:
         res["why"] = "no-unique-public-compiler-instance"
         return res
-    # every function the backend emitted for this compile: the procedure itself and its (transitive) callees
+    # every function the backend emitted for this compile: the procedure itself and its (transitive) callees.
+    # A Call node embeds the callee as it was BEFORE the backend's analyses; the function the backend emits for the
+    # callee comes from its own post-MemoryAnalysis IR (with Free nodes).  The model compiles callees inside the call
+    # node, so the embedded callees are replaced by the captured post-analysis IR of the same name (otherwise every
+    # callee that allocates looks like a leak to FreeOK).
+    from exo.core.LoopIR import LoopIR as _L
+    by_name = {str(ir.name): ir for (ir, _c, _p) in cap.seen}
+
+    def _subst_stmts(ss, depth):
+        out = []
+        for st in ss:
+            if isinstance(st, _L.Call) and str(st.f.name) in by_name and depth < 8:
+                cal = by_name[str(st.f.name)]
+                st = st.update(f=cal.update(body=_subst_stmts(cal.body, depth + 1)))
+            elif isinstance(st, _L.For):
+                st = st.update(body=_subst_stmts(st.body, depth))
+            elif isinstance(st, _L.If):
+                st = st.update(body=_subst_stmts(st.body, depth), orelse=_subst_stmts(st.orelse, depth))
+            out.append(st)
+        return out
+
     units = []
     types = set()
     try:
@@ -250,7 +270,7 @@ def check_proc_full(exo_proc, driver=None):
             for sy, b in dict(comp.range_env.env).items():
                 lo, hi = b if b is not None else (None, None)
                 bounds.append([export_ir.sym(sy), lo, hi])
-            units.append((fname, pub and fname == name, export_ir.exp_proc(ir, {}), bounds, body))
+            units.append((fname, pub and fname == name, export_ir.exp_proc(ir.update(body=_subst_stmts(ir.body, 0)), {}), bounds, body))
         if len(types) > 1:
             raise _Skip("unsupported:mixed-precision")
     except _Skip as e:
